@@ -50,6 +50,10 @@ pub fn scenario(seed: u64, idx: u64) -> Scenario {
     entries.push(Entry { path: "linked-target.txt".into(), kind: EntryKind::File(Content::Gen { marker: format!("LINKED-{:08x}-\n", nonce), len: 80, seed: 1, binary: false }) });
     let ups = "../".repeat(depth);
     entries.push(Entry { path: format!("{}/out.txt", root), kind: EntryKind::Symlink(format!("{}linked-target.txt", ups)) });
+    // links inside nested directories whose relative target stays inside the root
+    entries.push(Entry { path: format!("{}/d/up.txt", root), kind: EntryKind::Symlink("../a.txt".into()) });
+    entries.push(Entry { path: format!("{}/d/e/upup.txt", root), kind: EntryKind::Symlink("../../a.txt".into()) });
+    entries.push(Entry { path: format!("{}/d/e/side.html", root), kind: EntryKind::Symlink("../index.html".into()) });
     sc.tree = TreeSpec { root, entries };
 
     let n = rng.range(2, 8);
@@ -87,7 +91,9 @@ pub fn scenario(seed: u64, idx: u64) -> Scenario {
             segs.push(last);
         }
         let path = segs.join("/");
-        let target = match rng.below(12) {
+        let target = match rng.below(14) {
+            12 => rng.pick(&["//etc/passwd", "///etc/passwd", "/.//etc/passwd", "//etc//passwd", "/d//etc/passwd", "/%2fetc/passwd", "/etc/passwd", "/d/up.txt", "/d/e/upup.txt", "/d/e/side.html", "/d/e/side"]).to_string(),
+            13 => rng.pick(&["/d/up.txt", "/d/e/upup.txt", "/d/e/side.html", "/out.txt"]).to_string(),
             10 => format!("/h#x/{}?y=1", path),
             11 => format!("/{}?y#z", path),
             0 => path.clone(),
